@@ -248,6 +248,11 @@ def RenderConj(c):
     form = c.get('form')
     if form == 'max_is_null':
       return '(Max{1 :- %s} is null)' % RenderBody(c['body'])
+    if (form == 'implication' and len(c['body']) >= 2 and
+        c['body'][-1]['k'] == 'neg'):
+      # A => B  is  ~(A, ~B)
+      return '((%s) => (%s))' % (RenderBody(c['body'][:-1]),
+                                 RenderBody(c['body'][-1]['body']))
     if len(c['body']) == 1 and c['body'][0]['k'] == 'atom':
       return '~%s' % RenderConj(c['body'][0])
     return '~(%s)' % RenderBody(c['body'])
